@@ -66,4 +66,57 @@ LsqUnique(M, c, lb, ub) ==
      ELSE IF n <= d /\ Rank(M) = n THEN TRUE
      ELSE IF Rank(M) < d THEN FALSE
      ELSE Cardinality(SolVerts(M, c.q, VScale(c.den, lb), VScale(c.den, ub))) = 1
+
+(* ---- convex QP with equalities over a box ----------------------------------- *)
+(*   minimise  1/2 x'Qx + c'x   s.t.  M x = r,  lb <= x <= ub                      *)
+(* Q symmetric positive semidefinite (integers), all data on one scale.            *)
+(* Active-set enumeration: asg[j] = 0 (at lb), 1 (at ub), 2 (free); the free part  *)
+(* and the equality multipliers solve the KKT system by Cramer's rule.             *)
+(* Result: x = x/den (den > 0), lam = lam/den, mu = bound multipliers * den.       *)
+QPCand(Q, c, M, r, lb, ub, asg) ==
+  LET d == Len(M)
+      n == Len(M[1])
+      free == SortedSeq({j \in 1..n : asg[j] = 2})
+      k == Len(free)
+      xA == [j \in 1..n |-> IF asg[j] = 0 THEN lb[j] ELSE IF asg[j] = 1 THEN ub[j] ELSE 0]
+      QxA == MatVec(Q, xA)
+      MxA == MatVec(M, xA)
+      KK == [i \in 1..(k + d) |-> [j \in 1..(k + d) |->
+               IF i <= k /\ j <= k THEN Q[free[i]][free[j]]
+               ELSE IF i <= k THEN M[j - k][free[i]]
+               ELSE IF j <= k THEN M[i - k][free[j]]
+               ELSE 0]]
+      rhs == [i \in 1..(k + d) |-> IF i <= k THEN -c[free[i]] - QxA[free[i]] ELSE r[i - k] - MxA[i - k]]
+      dt == Det(KK)
+  IN IF dt = 0 THEN [ok |-> FALSE, den |-> 0, x |-> xA, lam |-> Vec(d, 0), asg |-> asg]
+     ELSE
+       LET sg == Sgn(dt)
+           a == Abs(dt)
+           sol == [i \in 1..(k + d) |-> sg * Det(ReplaceCol(KK, i, rhs))]
+           x == [j \in 1..n |-> IF asg[j] = 2 THEN sol[Pos(free, j)] ELSE xA[j] * a]
+           lam == [i \in 1..d |-> sol[k + i]]
+           inb == \A j \in 1..n : asg[j] = 2 => (lb[j] * a <= x[j] /\ x[j] <= ub[j] * a)
+           grad == VAdd(VAdd(MatVec(Q, x), VScale(a, c)), MatVec(Transpose(M), lam))   \* a * (Qx + c + M'lam)
+           kkt == \A j \in 1..n : (asg[j] = 0 => grad[j] >= 0) /\ (asg[j] = 1 => grad[j] <= 0)
+       IN [ok |-> inb /\ kkt, den |-> a, x |-> x, lam |-> lam, asg |-> asg]
+
+QPEq(Q, c, M, r, lb, ub) ==
+  LET n == Len(M[1])
+      a == CHOOSE a \in [1..n -> {0, 1, 2}] : QPCand(Q, c, M, r, lb, ub, a).ok
+  IN QPCand(Q, c, M, r, lb, ub, a)
+QPEqExists(Q, c, M, r, lb, ub) == \E a \in [1..Len(M[1]) -> {0, 1, 2}] : QPCand(Q, c, M, r, lb, ub, a).ok
+
+(* twice the objective at x/den, times den^2:  x'Qx + 2 den c'x                      *)
+QPObj2(Q, c, x, den) == Dot(x, MatVec(Q, x)) + 2 * den * Dot(c, x)
+
+(* definition on the lattice: no vertex of the feasible polytope is better           *)
+QPNoVertexBetter(Q, c, cand, V) ==
+  cand.den <= 300 =>
+    \A v \in V : v.den <= 300 =>
+       RLeq(R(QPObj2(Q, c, cand.x, cand.den), cand.den * cand.den), R(QPObj2(Q, c, v.num, v.den), v.den * v.den))
+
+(* LP over the vertex set V of a polytope: min / max of the coordinate sum            *)
+SumOf(v) == <<Sum(v.num), v.den>>
+MinSumVert(V) == CHOOSE v \in V : \A u \in V : RLeq(SumOf(v), SumOf(u))
+MaxSumVert(V) == CHOOSE v \in V : \A u \in V : RLeq(SumOf(u), SumOf(v))
 =============================================================================
